@@ -400,10 +400,34 @@ def deductive(rep: Report, tier):
         table_lemmas(rep, "Realp.scalar", RP, U + "Realp", 4, replay=replay_embed("Realp"))
         block_lemmas_nc(rep, "Realp", RP, U + "Realp", 4, replay=replay_embed("Realp"))
 
+        class AnyRealDtype:
+            """element type of a component plane: any real numpy dtype (int, float32, float64, ...) - the four planes need not agree"""
+            qv_value = True
+
+            def __init__(self, name):
+                self.name = name
+
+            def __repr__(self):
+                return f"dtype({self.name})"
+
         def setup_rp(I, ctx):
             m, n = dims(ctx, "m", "n")
             A = [ix.input_array(f"A{i}", [m, n]) for i in range(1, 5)]
+            for i, a in enumerate(A):
+                a.dtype_override = AnyRealDtype(f"A{i + 1}")
+            ctx.ghost["alloc_dtypes"] = []
             return A, {}, (A, m, n)
+
+        def lib_rp():
+            l = lib()
+
+            def hook(what, shape, dtype):
+                cur().ghost.setdefault("alloc_dtypes", []).append(dtype)
+                if isinstance(dtype, AnyRealDtype):
+                    return l.alloc(what, shape, None)       # contents as for float64; the narrower storage is what the clause below rejects
+                return None
+            l.alloc_hooks.append(hook)
+            return l
 
         def post_rp(I, ctx, outcome, val, aux):
             A, m, n = aux
@@ -417,8 +441,10 @@ def deductive(rep: Report, tier):
                 for b in range(4):
                     conds.append(ix.scal_eq(val.at(a * m + i, b * n + j), t[(a, b)]))
             out.append(("blockwise_tiling", sand(*conds)))
+            # injective / linear for ALL entry values needs storage that holds every plane exactly: float64, not the dtype of one plane
+            out.append(("result_storage_not_narrowed_to_one_plane_dtype", not any(isinstance(d, AnyRealDtype) for d in ctx.ghost.get("alloc_dtypes", []))))
             return out
-        run_case(rep, P, U + "Realp", "matrix", setup_rp, post_rp, lib=lib(), clauses=["returns", "shape", "blockwise_tiling"],
+        run_case(rep, P, U + "Realp", "matrix", setup_rp, post_rp, lib=lib_rp(), clauses=["returns", "shape", "blockwise_tiling", "result_storage_not_narrowed_to_one_plane_dtype"],
                  replay=replay_embed("Realp"), timeout_s=30)
 
     # ---------------- A2A0123 ------------------------------------------------------------------------
@@ -594,6 +620,7 @@ def _real_embed(kind, A4, layout="C"):
 def _check_embed(kind, A4, B4=None):
     """Runtime contract of one embedding on concrete data; returns None or failure details."""
     from .. import runtime as rt
+    from .. import runtime as rt
     u = rt.real().utils
     if kind in ("real_expand", "Realp"):
         got = _real_embed(kind, A4)
@@ -712,6 +739,24 @@ def bounded(rep: Report, tier, seed):
         b2.case(f"{P}.bounded.random.adjoint", ("adjoint", k, t), lambda: _check_embed("adjoint", S4, T4), "adjoint laws on a random pair", inputs={"A": S4, "B": T4})
     b2.samples.append({"kind": "roundtrip", "entry": [-0.0, 1e300, 1e-300, -1e-300], "check": "bytes equal"})
     b2.done()
+    b3 = rep.add_bounded(Bounded("mixed_component_dtypes", "Realp / A2A0123 round trip with component planes of different real dtypes (int64, float32, float64 in every position)",
+                                 "identical to the result for the same values held as float64"))
+    from .. import runtime as rt
+    u = rt.real().utils
+    for t, (m, n) in enumerate(((1, 1), (2, 3), (3, 2))):
+        base = rng.integers(-3, 4, size=(m, n, 4)).astype(float) + 0.5 * rng.integers(0, 2, size=(m, n, 4))     # exactly representable in float32
+        for pos in range(4):
+            for dt in (np.int64, np.float32):
+                def g(base=base, pos=pos, dt=dt):
+                    planes = [base[..., c].copy() for c in range(4)]
+                    planes[pos] = np.round(planes[pos]).astype(dt) if dt is np.int64 else planes[pos].astype(dt)
+                    ref = [np.asarray(p_, dtype=np.float64) for p_ in planes]
+                    got, want = u.Realp(*planes), u.Realp(*ref)
+                    if got.shape != want.shape or not np.array_equal(np.asarray(got, dtype=np.float64), want):
+                        return {"what": f"Realp with plane {pos} of dtype {np.dtype(dt).name} differs from the float64 result", "got": np.asarray(got, dtype=float), "want": want}
+                    return None
+                b3.case(f"{P}.bounded.mixed_dtypes.Realp", (t, pos, np.dtype(dt).name), g, f"Realp {m}x{n}, plane {pos} as {np.dtype(dt).name}", inputs={"A": base})
+    b3.done()
 
 
 def run(tier, seed):
